@@ -1,6 +1,7 @@
 package checks
 
 import (
+	"reflect"
 	"encoding/json"
 	"fmt"
 	cose "github.com/veraison/go-cose"
@@ -108,6 +109,48 @@ var c14Kind = registerKind("c14", func(in c14In) string {
 			}
 			if got, gerr := fresh.GetSecurityLifeCycle(); gerr != nil || got != v {
 				return fmt.Sprintf("%s fresh claims-set: Set(0x%04x) then Get gives 0x%04x, %v after ANOTHER claims-set that had been set to the same value was re-used as a decode target (shared storage)", p, v, got, gerr)
+			}
+		}
+		// ... and the object that took a valid value through its setter and
+		// is then handed ANOTHER value by a non-validating route (its holder
+		// re-uses it as decode target, or writes through the exported field):
+		// the getter's verdict follows the value the object holds now
+		for _, first := range []uint16{0x3000, v} {
+			if lifecycleState(first) < 0 {
+				continue
+			}
+			for _, route := range []string{"cbor", "json", "field"} {
+				u, _ := psatoken.NewClaims(p.Name())
+				if serr := u.SetSecurityLifeCycle(first); serr != nil {
+					return fmt.Sprintf("%s SetSecurityLifeCycle(0x%04x) fails: %v", p, first, serr)
+				}
+				if _, gerr := u.GetSecurityLifeCycle(); gerr != nil {
+					return fmt.Sprintf("%s getter after SetSecurityLifeCycle(0x%04x): %v", p, first, gerr)
+				}
+				om := baseValid(p, 0)
+				om.Lifecycle = u16p(v)
+				switch route {
+				case "cbor":
+					type cu interface{ UnmarshalCBOR([]byte) error }
+					if derr := u.(cu).UnmarshalCBOR(om.WireBytes()); derr != nil {
+						continue
+					}
+				case "json":
+					doc, jerr := json.Marshal(om.ExpectJSON())
+					if jerr != nil || json.Unmarshal(doc, u) != nil {
+						continue
+					}
+				default:
+					f := reflect.ValueOf(u).Elem().FieldByName("SecurityLifeCycle")
+					if !f.IsValid() || f.Kind() != reflect.Pointer || f.IsNil() || f.Elem().Kind() != reflect.Uint16 {
+						continue
+					}
+					f.Elem().SetUint(uint64(v))
+				}
+				got, gerr := u.GetSecurityLifeCycle()
+				if (gerr == nil) != valid || (valid && got != v) {
+					return fmt.Sprintf("%s claims-set that was given 0x%04x through the setter and then holds 0x%04x (%s route): getter = %d, %v; want valid=%v", p, first, v, route, got, gerr, valid)
+				}
 			}
 		}
 		// the setter on a claims-set that ALREADY holds a value (the same one,
